@@ -222,6 +222,3 @@ Proof.
     { assert (0 <= s * s <= 1) by nra. nra. }
     apply Rabs_le_inv in H. lra.
 Qed.
-
-Lemma fourier2_2d_raises_lemma : forall vol n0 n1, fourier2_weights vol [n0; n1] = None.
-Proof. reflexivity. Qed.
